@@ -1174,10 +1174,16 @@ init_strtab(kdump_ctx_t *ctx, unsigned strtabidx)
 		return KDUMP_OK;	/* no string table */
 
 	ps = edp->sections + strtabidx;
+	if (ps->size >= SIZE_MAX)
+		return set_error(ctx, KDUMP_ERR_CORRUPT,
+				 "Invalid ELF string table size: %" PRIu64,
+				 ps->size);
 	edp->strtab_size = ps->size;
-	edp->strtab = ctx_malloc(ps->size, ctx, "ELF string table");
+	edp->strtab = ctx_malloc(ps->size + 1, ctx, "ELF string table");
 	if (!edp->strtab)
 		return KDUMP_ERR_SYSTEM;
+	/* Section names are compared as C strings. */
+	edp->strtab[ps->size] = '\0';
 
 	status = flatmap_pread(ctx->shared->flatmap, edp->strtab, ps->size,
 			       0, ps->file_offset);
